@@ -584,4 +584,92 @@ example : unflattenC 3 2 (flattenC [[1, 2, 3], [4, 5, 6]]) = [[1, 2, 3], [4, 5, 
 
 end LayoutAndDtype
 
+/-! ### round 5: the order in which a request names the ids is not part of the table (seeded change C08-10) -/
+section RequestOrder
+
+/-- lookup in an association list with distinct keys does not depend on the order of its entries -/
+theorem assocLookup_perm {l₁ l₂ : List (Nat × Row)} (hp : l₁.Perm l₂) (hn : (l₁.map Prod.fst).Nodup) (i : Nat) :
+    assocLookup i l₁ = assocLookup i l₂ := by
+  induction hp with
+  | nil => rfl
+  | cons x _ ih =>
+    obtain ⟨j, r⟩ := x
+    have hn2 : (List.map Prod.fst _).Nodup := (List.nodup_cons.mp (by simpa using hn)).2
+    simp only [assocLookup]
+    rw [ih hn2]
+  | swap x y l =>
+    obtain ⟨j, r⟩ := x
+    obtain ⟨k, q⟩ := y
+    have hne : k ≠ j := by
+      intro h
+      subst h
+      simp at hn
+    simp only [assocLookup]
+    by_cases h1 : k = i
+    · have h2 : j ≠ i := fun h => hne (h1.trans h.symm)
+      simp [h1, h2]
+    · simp [h1]
+  | trans h₁ _ ih₁ ih₂ =>
+    rw [ih₁ hn, ih₂ ((h₁.map Prod.fst).nodup_iff.mp hn)]
+
+/-- **C08_update_request_order**: the table after `update(ids', rows, allow_overwrite=True)` depends, by id, on WHICH row the
+request gives for WHICH id and not on the order in which the request names the ids: two requests that pair the same (distinct)
+ids with the same rows - one a permutation of the other, both well-formed (as many rows as ids, the condition under which
+`update` does not raise) - produce tables that agree under lookup by id and list the same ids. -/
+theorem C08_update_request_order (cfg : Cfg) (s t t' : State) (ids' ids'' : List Nat) (rows rows' : List Row)
+    (hl : ids'.length = rows.length) (hl' : ids''.length = rows'.length)
+    (hperm : (ids'.zip rows).Perm (ids''.zip rows'))
+    (h : updateOverwrite cfg s ids' rows = .ok t) (h' : updateOverwrite cfg s ids'' rows' = .ok t')
+    (hinv : AInv s) (hn : s.ids.Nodup) (hn' : ids'.Nodup) :
+    (∀ i, locView t i = locView t' i) ∧ (∀ i, i ∈ t.ids ↔ i ∈ t'.ids) := by
+  have hk : ids'.Perm ids'' := by
+    have := hperm.map Prod.fst
+    rwa [zip_keys ids' rows hl, zip_keys ids'' rows' hl'] at this
+  have hn'' : ids''.Nodup := hk.nodup_iff.mp hn'
+  have hlook : ∀ i, lookupRow ids' rows i = lookupRow ids'' rows' i := by
+    intro i
+    rw [lookupRow_zip, lookupRow_zip]
+    exact assocLookup_perm hperm (by rw [zip_keys ids' rows hl]; exact hn') i
+  obtain ⟨h1, _, _, h4⟩ := C08_update_spec cfg s t ids' rows h hinv hn hn'
+  obtain ⟨h1', _, _, h4'⟩ := C08_update_spec cfg s t' ids'' rows' h' hinv hn hn''
+  refine ⟨fun i => ?_, fun i => ?_⟩
+  · rw [h1 i, h1' i, hlook i]
+  · rw [h4 i, h4' i]
+    exact or_congr Iff.rfl hk.mem_iff
+
+/-- the in-place shortcut of seeded change C08-10 (`frame[index.isin(new_ids)] = new_values`): the rows whose id is requested are
+overwritten through a boolean row mask, i.e. visited in STORAGE order, while the new rows are consumed in REQUEST order -/
+def maskAssign : List Nat → List Row → List Nat → List Row → List Row
+  | i :: is, r :: rs, req, n :: ns =>
+    if req.contains i then n :: maskAssign is rs req ns else r :: maskAssign is rs req (n :: ns)
+  | _, rs, _, _ => rs
+
+def sUnsorted : State :=
+  ⟨[30, 10, 50, 20, 40], [[some 30], [some 10], [some 50], [some 20], [some 40]],
+   [[some 30], [some 10], [some 50], [some 20], [some 40]], some (enumIds [30, 10, 50, 20, 40])⟩
+
+/-- **C08_counterexample_mask_update** (seeded change C08-10): on ids stored as 30, 10, 50, 20, 40 the request
+"10 ↦ 1, 20 ↦ 2, 30 ↦ 3" - ascending, not in storage order - written through the row mask puts the row passed for id 10 under
+id 30 and the one passed for id 30 under id 20, although every view of the resulting table agrees with every other; the modelled
+`update` (`combine_first`, by label) holds under every id the row that was passed for it. -/
+theorem C08_counterexample_mask_update :
+    let masked := maskAssign sUnsorted.ids sUnsorted.frame [10, 20, 30] [[some 1], [some 2], [some 3]]
+    masked = [[some 1], [some 2], [some 50], [some 3], [some 40]] ∧
+    lookupRow sUnsorted.ids masked 30 = some [some 1] ∧ lookupRow sUnsorted.ids masked 20 = some [some 3] ∧
+    (match updateOverwrite Cfg.fixed sUnsorted [10, 20, 30] [[some 1], [some 2], [some 3]] with
+     | .ok t => [locView t 10, locView t 20, locView t 30, locView t 40, locView t 50]
+     | .error _ => []) = [some [some 1], some [some 2], some [some 3], some [some 40], some [some 50]] := by
+  decide
+
+/-- … and the mask is harmless exactly when the request names the ids in storage order (all uses in femio's own tests) -/
+example : maskAssign sUnsorted.ids sUnsorted.frame [30, 10, 20] [[some 3], [some 1], [some 2]]
+    = [[some 3], [some 1], [some 50], [some 2], [some 40]] := by decide
+
+/-- non-vacuity of `C08_update_request_order`: the same request named ascending and descending -/
+example : (match updateOverwrite Cfg.fixed sUnsorted [10, 20, 30] [[some 1], [some 2], [some 3]],
+                 updateOverwrite Cfg.fixed sUnsorted [30, 20, 10] [[some 3], [some 2], [some 1]] with
+           | .ok t, .ok t' => t == t' | _, _ => false) = true := by decide
+
+end RequestOrder
+
 end Femio.C08
